@@ -18,8 +18,10 @@ import (
 	"fmt"
 	"hash/fnv"
 	"io"
+	"os"
 	"strconv"
 	"strings"
+	"time"
 
 	chunker "github.com/ipfs/boxo/chunker"
 	dag "github.com/ipfs/boxo/ipld/merkledag"
@@ -30,6 +32,8 @@ import (
 	"github.com/ipfs/boxo/ipld/unixfs/importer/trickle"
 	uio "github.com/ipfs/boxo/ipld/unixfs/io"
 	"github.com/ipfs/boxo/ipld/unixfs/mod"
+	pb "github.com/ipfs/boxo/ipld/unixfs/pb"
+	cid "github.com/ipfs/go-cid"
 	ipld "github.com/ipfs/go-ipld-format"
 
 	"verifharness/vh"
@@ -40,7 +44,8 @@ var ctx = context.Background()
 // ---------------------------------------------------------------- trees
 
 type tnode struct {
-	kind  byte // 'L', 'R', 'W', 'N'
+	kind  byte   // 'L', 'R', 'W', 'N'
+	idata []byte // Data carried by an internal node next to its links (legacy files): skipped by the reader
 	data  []byte
 	fs    uint64
 	kids  []*tnode
@@ -53,7 +58,11 @@ func (t *tnode) dump(sb *strings.Builder) {
 		sb.WriteString(fmt.Sprintf("%x", t.data))
 		return
 	}
-	fmt.Fprintf(sb, "N%d[", t.fs)
+	fmt.Fprintf(sb, "N%d", t.fs)
+	if len(t.idata) > 0 {
+		fmt.Fprintf(sb, "{%x}", t.idata)
+	}
+	sb.WriteByte('[')
 	for i, k := range t.kids {
 		if i > 0 {
 			sb.WriteByte(',')
@@ -156,6 +165,11 @@ func (p *parser) tree() *tnode {
 		return t
 	case 'N':
 		t := &tnode{kind: 'N', fs: p.nat()}
+		if p.s[p.i] == '{' {
+			j := strings.IndexByte(p.s[p.i:], '}') + p.i
+			t.idata = vh.UnHex(p.s[p.i+1 : j])
+			p.i = j + 1
+		}
 		if p.s[p.i] != '[' {
 			panic("bad dump: [ expected")
 		}
@@ -215,7 +229,10 @@ func build(ds ipld.DAGService, t *tnode) ipld.Node {
 	default:
 		pn := dag.NodeWithData(nil)
 		fsn := ft.NewFSNode(ft.TFile)
-		var sum uint64
+		if len(t.idata) > 0 {
+			fsn.SetData(t.idata)
+		}
+		sum := uint64(len(t.idata))
 		for i, k := range t.kids {
 			if err := pn.AddNodeLink("", build(ds, k)); err != nil {
 				panic(err)
@@ -259,6 +276,9 @@ func dumpDag(ds ipld.NodeGetter, nd ipld.Node) *tnode {
 			return &tnode{kind: k, data: d}
 		}
 		t := &tnode{kind: 'N', fs: fsn.FileSize()}
+		if len(n.Links()) > 0 {
+			t.idata = fsn.Data()
+		}
 		bs := fsn.BlockSizes()
 		for i, l := range n.Links() {
 			c, err := l.GetNode(ctx, ds)
@@ -408,10 +428,63 @@ type session struct {
 	content []byte
 	pos     int64 // spec position
 	ws      bool
+	seekd   bool // a Seek was issued since the DAG was opened (sequential access needs no size information)
+	fl      *flaky
+}
+
+// checked: may this call be compared with the byte-slice reader?
+func (s *session) checked() bool { return s.ws || !s.seekd }
+
+// flaky wraps the DAG service: while pct > 0 a fetch fails when hash(seed, epoch, cid) % 100 < pct.
+type flaky struct {
+	ipld.NodeGetter
+	seed  uint64
+	pct   int
+	epoch int
+}
+
+var errFetch = errors.New("injected fetch failure")
+
+func (f *flaky) bad(c cid.Cid) bool {
+	if f.pct <= 0 {
+		return false
+	}
+	hh := fnv.New64a()
+	fmt.Fprintf(hh, "%d/%d/", f.seed, f.epoch)
+	hh.Write(c.Bytes())
+	return int(hh.Sum64()%100) < f.pct
+}
+
+func (f *flaky) Get(c context.Context, k cid.Cid) (ipld.Node, error) {
+	if f.bad(k) {
+		return nil, errFetch
+	}
+	return f.NodeGetter.Get(c, k)
+}
+
+func (f *flaky) GetMany(c context.Context, ks []cid.Cid) <-chan *ipld.NodeOption {
+	out := make(chan *ipld.NodeOption, len(ks)+1)
+	go func() {
+		defer close(out)
+		for _, k := range ks {
+			if f.bad(k) {
+				out <- &ipld.NodeOption{Err: errFetch}
+				return
+			}
+			nd, err := f.NodeGetter.Get(c, k)
+			out <- &ipld.NodeOption{Node: nd, Err: err}
+			if err != nil {
+				return
+			}
+		}
+	}()
+	return out
 }
 
 func (s *session) open(o *vh.Out, ds ipld.NodeGetter, root ipld.Node, t *tnode) {
-	dr, err := uio.NewDagReader(ctx, root, ds)
+	s.fl = &flaky{NodeGetter: ds}
+	s.seekd = false
+	dr, err := uio.NewDagReader(ctx, root, s.fl)
 	if err != nil {
 		o.Fail("open-error", "NewDagReader: %v", err)
 		s.dr = nil
@@ -458,15 +531,42 @@ func exec(c vh.Case, o *vh.Out) {
 	for _, line := range c.Ops {
 		f := strings.Fields(line)
 		switch {
-		case len(f) == 2 && f[0] == "tree":
+		case (len(f) == 2 || len(f) == 3) && f[0] == "tree":
 			t := parseDump(f[1])
 			ds := mdtest.Mock()
 			root := build(ds, t)
+			var wantMode os.FileMode
+			var wantTime time.Time
+			if len(f) == 3 { // attrs=<mode>:<sec>: mode / mtime on the root (dag-pb roots only)
+				if pn, ok := root.(*dag.ProtoNode); ok {
+					a := strings.Split(strings.TrimPrefix(f[2], "attrs="), ":")
+					fsn, _ := ft.FSNodeFromBytes(pn.Data())
+					wantMode = os.FileMode(vh.Atoi(a[0]))
+					wantTime = time.Unix(int64(vh.Atoi(a[1])), 0)
+					fsn.SetMode(wantMode)
+					fsn.SetModTime(wantTime)
+					b, _ := fsn.GetBytes()
+					pn2 := pn.Copy().(*dag.ProtoNode)
+					pn2.SetData(b)
+					if err := ds.Add(ctx, pn2); err != nil {
+						panic(err)
+					}
+					root = pn2
+				}
+			}
 			if !t.wellSized() {
 				o.Kind("not-wellsized")
 			}
 			o.Kind("tree-hand")
 			s.open(o, ds, root, t)
+			if s.dr != nil {
+				if s.dr.Mode() != wantMode || !s.dr.ModTime().Equal(wantTime) {
+					o.Fail("attrs-accessor", "Mode()/ModTime() = %v/%v, root carries %v/%v", s.dr.Mode(), s.dr.ModTime(), wantMode, wantTime)
+				}
+				if len(f) == 3 {
+					o.Kind("attrs")
+				}
+			}
 		case len(f) == 9 && f[0] == "import":
 			seed, _ := strconv.ParseUint(f[4], 10, 64)
 			ds, root, err := runImport(f[1], vh.Atoi(f[2]), f[3] == "1", seed, ints(f[5]), ints(f[6]), f[7])
@@ -504,7 +604,7 @@ func exec(c vh.Case, o *vh.Out) {
 				n, err = s.dr.CtxReadFull(ctx, buf)
 			}
 			got := buf[:n]
-			if s.ws {
+			if s.checked() {
 				want := s.specRead(k)
 				if !bytes.Equal(got, want) {
 					o.Fail("read-bytes", "read %d at %d: got %d bytes, want %d (or different content)", k, s.pos, n, len(want))
@@ -531,7 +631,7 @@ func exec(c vh.Case, o *vh.Out) {
 		case len(f) == 1 && f[0] == "writeto":
 			var bb bytes.Buffer
 			n, err := s.dr.WriteTo(&bb)
-			if s.ws {
+			if s.checked() {
 				want := s.specRead(len(s.content) + 1)
 				if !bytes.Equal(bb.Bytes(), want) || err != nil || n != int64(len(want)) {
 					o.Fail("writeto", "WriteTo at %d: n=%d err=%v, want %d bytes", s.pos, n, err, len(want))
@@ -544,6 +644,7 @@ func exec(c vh.Case, o *vh.Out) {
 			off, _ := strconv.ParseInt(f[1], 10, 64)
 			wh := vh.Atoi(f[2])
 			ret, err := s.dr.Seek(off, wh)
+			s.seekd = true
 			if s.ws {
 				var target int64
 				valid := true
@@ -581,16 +682,174 @@ func exec(c vh.Case, o *vh.Out) {
 				e = "err"
 			}
 			o.Emit("ret=%d err=%s pos=%d", ret, e, s.curPos())
+		case len(f) == 3 && f[0] == "faults" && s.dr != nil:
+			seed, _ := strconv.ParseUint(f[1], 10, 64)
+			s.fl.seed, s.fl.pct = seed, vh.Atoi(f[2])
+			o.Kind("faults")
+			o.Emit("checked")
+		case (f[0] == "fread" || f[0] == "fctxread" || f[0] == "fwriteto" || f[0] == "fseek" || f[0] == "fclose") && s.dr != nil:
+			s.faultyOp(o, f)
+			o.Emit("checked")
+		case len(f) == 2 && f[0] == "openbad":
+			openBad(o, f[1])
+			o.Emit("checked")
 		default:
 			o.Emit("bad-op")
 		}
-		if s.dr != nil && s.ws {
+		if s.dr != nil && s.checked() && !strings.HasPrefix(f[0], "f") && f[0] != "openbad" {
 			if p := s.curPos(); p != s.pos {
 				o.Fail("position", "after %q the reader is at %d, the byte reader at %d", f[0], p, s.pos)
 				s.pos = p
 			}
 		}
 	}
+}
+
+// faultyOp runs one call while fetches may fail (or after Close) and checks it against the fault-tolerant
+// specification (theorem c09_refines_faulty): either the call answers like the byte-slice reader, or it reports
+// an error and then a read/WriteTo has delivered a correct prefix and advanced by exactly that much, and a failed
+// seek has left the reader at the start of the file. Only used on well-sized DAGs.
+func (s *session) faultyOp(o *vh.Out, f []string) {
+	s.fl.epoch++
+	isFault := func(err error) bool {
+		return err != nil && !errors.Is(err, io.EOF)
+	}
+	prefixOK := func(got []byte) bool {
+		return s.pos+int64(len(got)) <= int64(len(s.content)) && bytes.Equal(got, s.content[s.pos:s.pos+int64(len(got))]) ||
+			len(got) == 0
+	}
+	switch f[0] {
+	case "fclose":
+		s.dr.Close()
+		o.Kind("closed")
+	case "fread", "fctxread":
+		k := vh.Atoi(f[1])
+		buf := make([]byte, k)
+		var n int
+		var err error
+		if f[0] == "fread" {
+			n, err = s.dr.Read(buf)
+		} else {
+			n, err = s.dr.CtxReadFull(context.Background(), buf)
+		}
+		got := buf[:n]
+		if isFault(err) {
+			o.Kind("fault-read")
+			if !prefixOK(got) {
+				o.Fail("fault-read-bytes", "failed read at %d returned %d bytes that are not the file content there", s.pos, n)
+			}
+			s.pos += int64(n)
+		} else {
+			want := s.specRead(k)
+			if !bytes.Equal(got, want) {
+				o.Fail("read-bytes", "read %d at %d (fetch failures around): got %d bytes, want %d (or different content)", k, s.pos, n, len(want))
+			}
+			if k > 0 && len(want) < k && err == nil {
+				o.Fail("read-eof-missing", "short read without EOF")
+			}
+			s.pos += int64(len(want))
+		}
+	case "fwriteto":
+		var bb bytes.Buffer
+		n, err := s.dr.WriteTo(&bb)
+		if isFault(err) {
+			o.Kind("fault-writeto")
+			if !prefixOK(bb.Bytes()) || n != int64(bb.Len()) {
+				o.Fail("fault-read-bytes", "failed WriteTo at %d wrote %d bytes that are not the file content there", s.pos, n)
+			}
+			s.pos += n
+		} else {
+			want := s.specRead(len(s.content) + 1)
+			if !bytes.Equal(bb.Bytes(), want) {
+				o.Fail("writeto", "WriteTo at %d: %d bytes, want %d", s.pos, n, len(want))
+			}
+			s.pos += int64(len(want))
+		}
+	case "fseek":
+		off, _ := strconv.ParseInt(f[1], 10, 64)
+		wh := vh.Atoi(f[2])
+		var target int64
+		switch wh {
+		case io.SeekStart:
+			target = off
+		case io.SeekCurrent:
+			target = s.pos + off
+		default:
+			wh = io.SeekEnd
+			target = int64(len(s.content)) + off
+		}
+		ret, err := s.dr.Seek(off, wh)
+		switch {
+		case target < 0:
+			if err == nil {
+				o.Fail("seek-accepted", "negative target accepted")
+			}
+		case err != nil:
+			o.Kind("fault-seek")
+			if ret != 0 {
+				o.Fail("fault-seek-offset", "failed Seek returned %d", ret)
+			}
+			s.pos = 0 // the reader must now be at the start of the file (checked by the reads that follow)
+		default:
+			if ret != target {
+				o.Fail("seek-offset", "Seek returned %d, want %d", ret, target)
+			}
+			s.pos = target
+		}
+	}
+	if p, err := s.dr.Seek(0, io.SeekCurrent); err == nil && p != s.pos {
+		o.Fail("position", "after %q (fetch failures around) the reader is at %d, the byte reader at %d", f[0], p, s.pos)
+		s.pos = p
+	}
+}
+
+// openBad: NewDagReader on nodes that are not files.
+func openBad(o *vh.Out, kind string) {
+	ds := mdtest.Mock()
+	mk := func(t pb.Data_DataType, links int) ipld.Node {
+		fsn := ft.NewFSNode(t)
+		b, _ := fsn.GetBytes()
+		pn := dag.NodeWithData(b)
+		for i := 0; i < links; i++ {
+			c := dag.NodeWithData(func() []byte { x := ft.NewFSNode(ft.TFile); x.SetData([]byte{byte(i)}); b, _ := x.GetBytes(); return b }())
+			ds.Add(ctx, c)
+			pn.AddNodeLink("", c)
+		}
+		ds.Add(ctx, pn)
+		return pn
+	}
+	var nd ipld.Node
+	var want error
+	wantOK := false
+	switch kind {
+	case "dir":
+		nd, want = mk(ft.TDirectory, 0), uio.ErrIsDir
+	case "hamt":
+		nd, want = mk(ft.THAMTShard, 0), uio.ErrIsDir
+	case "symlink":
+		nd, want = mk(ft.TSymlink, 0), uio.ErrCantReadSymlinks
+	case "meta":
+		nd, wantOK = mk(ft.TMetadata, 1), true
+	case "metabad":
+		nd = mk(ft.TMetadata, 0)
+	case "garbage":
+		nd = dag.NodeWithData([]byte{0xff, 0xff, 0xff})
+	}
+	dr, err := uio.NewDagReader(ctx, nd, ds)
+	switch {
+	case wantOK && err != nil:
+		o.Fail("open-meta", "metadata node with a file child: %v", err)
+	case wantOK:
+		b, _ := io.ReadAll(dr)
+		if !bytes.Equal(b, []byte{0}) {
+			o.Fail("open-meta", "metadata node: read %x", b)
+		}
+	case err == nil:
+		o.Fail("open-accepted", "NewDagReader accepted a %s node", kind)
+	case want != nil && !errors.Is(err, want):
+		o.Fail("open-error-kind", "NewDagReader(%s) = %v, want %v", kind, err, want)
+	}
+	o.Kind("openbad-" + kind)
 }
 
 // ---------------------------------------------------------------- generator
@@ -620,6 +879,10 @@ func genTree(r *vh.Rand, depth int, perturb *bool) *tnode {
 	}
 	if *perturb && r.Chance(1, 4) {
 		t.fs = uint64(int(t.fs) + r.Range(-int(min64(t.fs, 2)), 2))
+	}
+	if *perturb && k > 0 && r.Chance(1, 3) { // legacy shape: Data next to the links, counted in Filesize
+		t.idata = r.Bytes(r.Range(1, 4))
+		t.fs += uint64(len(t.idata))
 	}
 	return t
 }
@@ -651,6 +914,10 @@ func genOps(r *vh.Rand, c *vh.Case, size, chunk int, n int) {
 		case 5, 6, 7, 8:
 			wh := vh.Pick(r, []int{0, 0, 1, 1, 2, 2, 3, 7})
 			off := r.Range(-size-2, size+2)
+			if r.Chance(1, 12) { // int64 edge: sums with dr.offset / Size() overflow
+				c.Ops = append(c.Ops, fmt.Sprintf("seek %s %d", vh.Pick(r, []string{"9223372036854775807", "9223372036854775806", "-9223372036854775808", "4611686018427387904"}), vh.Pick(r, []int{0, 1, 2})))
+				continue
+			}
 			switch wh {
 			case 0:
 				off = r.Range(-2, size+2)
@@ -694,7 +961,11 @@ func gen(r *vh.Rand, tier string, n int, emit func(vh.Case)) {
 			if cr.Chance(2, 5) {
 				perturb := cr.Chance(1, 4)
 				t = genTree(cr, cr.Range(0, 4), &perturb)
-				c.Ops = append(c.Ops, "tree "+t.String())
+				if cr.Chance(1, 5) {
+					c.Ops = append(c.Ops, fmt.Sprintf("tree %s attrs=%d:%d", t.String(), cr.Intn(0o1000), cr.Range(1, 2000000000)))
+				} else {
+					c.Ops = append(c.Ops, "tree "+t.String())
+				}
 			} else {
 				layout := vh.Pick(cr, []string{"bal", "tri"})
 				w := vh.Pick(cr, []int{2, 2, 3, 3, 4, 5, 8, 174})
@@ -774,6 +1045,34 @@ func gen(r *vh.Rand, tier string, n int, emit func(vh.Case)) {
 				m = cr.Range(3, 40)
 			}
 			genOps(cr, &c, len(t.content()), chunk, m)
+			if k == rounds-1 && t.wellSized() && t.leaves() >= 2 && cr.Chance(1, 3) {
+				// the rest of the case runs with failing fetches / a closed reader (Go-side monitor only)
+				size := len(t.content())
+				c.Ops = append(c.Ops, "fseek 0 0", fmt.Sprintf("faults %d %d", cr.Intn(1<<30), vh.Pick(cr, []int{15, 30, 60, 100})))
+				for j, n := 0, cr.Range(4, 14); j < n; j++ {
+					switch cr.Intn(9) {
+					case 0, 1, 2:
+						c.Ops = append(c.Ops, fmt.Sprintf("fread %d", cr.Intn(size+3)))
+					case 3:
+						c.Ops = append(c.Ops, fmt.Sprintf("fctxread %d", cr.Intn(size+3)))
+					case 4, 5, 6:
+						c.Ops = append(c.Ops, fmt.Sprintf("fseek %d %d", cr.Range(-1, size+1), vh.Pick(cr, []int{0, 0, 0, 1, 2})))
+						if cr.Chance(1, 2) { // the classic: a failed Seek followed by Seek(0, SeekStart) and a read
+							c.Ops = append(c.Ops, "fseek 0 0", fmt.Sprintf("fread %d", cr.Range(1, 6)))
+						}
+					case 7:
+						c.Ops = append(c.Ops, "fwriteto")
+					default:
+						c.Ops = append(c.Ops, fmt.Sprintf("faults %d %d", cr.Intn(1<<30), vh.Pick(cr, []int{0, 0, 30, 100})))
+					}
+				}
+				if cr.Chance(1, 3) {
+					c.Ops = append(c.Ops, "faults 0 0", "fclose", fmt.Sprintf("fread %d", cr.Intn(size+2)), fmt.Sprintf("fctxread %d", cr.Intn(size+2)), "fseek 1 0", "fread 2")
+				}
+			}
+		}
+		if cr.Chance(1, 40) {
+			c.Ops = append(c.Ops, "openbad "+vh.Pick(cr, []string{"dir", "hamt", "symlink", "meta", "metabad", "garbage"}))
 		}
 		emit(c)
 	}
